@@ -48,9 +48,12 @@ func (s *Netceptor) VerifRemoveConnection(id string) { s.removeConnection(id) }
 
 // VerifHandleRoutingUpdate calls handleRoutingUpdate.
 func (s *Netceptor) VerifHandleRoutingUpdate(u VerifRoutingUpdate, recvConn string) {
-	conns := make(map[string]float64, len(u.Connections))
-	for k, v := range u.Connections {
-		conns[k] = v
+	var conns map[string]float64 // nil stays nil, as after unmarshalling "Connections": null
+	if u.Connections != nil {
+		conns = make(map[string]float64, len(u.Connections))
+		for k, v := range u.Connections {
+			conns[k] = v
+		}
 	}
 	s.handleRoutingUpdate(&routingUpdate{
 		NodeID: u.NodeID, UpdateID: u.UpdateID, UpdateEpoch: u.UpdateEpoch, UpdateSequence: u.UpdateSequence,
